@@ -53,6 +53,7 @@ class DmxWire:
         self.ex = Extractor(mod, fold, Config(dict(values), None), 'Element')
         self.env = self.ex.env
         self.raised: Optional[ast.AST] = None
+        self.streams: Set[str] = {'file'}           # the stream parameter and local aliases of it (`file_, size_ = file, size`)
 
     # -- helpers ----------------------------------------------------------------------------------------------------------
     def const_int(self, e: ast.AST) -> Optional[int]:
@@ -123,7 +124,7 @@ class DmxWire:
                 return [Tok('Z' + self.enc(kw.get('encoding', e.args[2] if len(e.args) > 2 else None)) + ';', e)]
             if d == 'binformat.read_nullstr_array':
                 return [('star', [Tok('Z' + self.enc(kw.get('encoding', e.args[2] if len(e.args) > 2 else None)) + ';', e)])]
-            if isinstance(e.func, ast.Attribute) and e.func.attr == 'read' and dotted(e.func.value) in ('file', 'file_') and e.args:
+            if isinstance(e.func, ast.Attribute) and e.func.attr == 'read' and (dotted(e.func.value) in self.streams or dotted(e.func.value) == 'file_') and e.args:
                 return [self.size_tok(e.args[0], e)]
             if isinstance(e.func, ast.Attribute) and e.func.attr == 'write' and dotted(e.func.value) == 'file' and e.args:
                 return self.written(e.args[0], e)
@@ -188,6 +189,8 @@ class DmxWire:
                 self.env[name] = 'ONE'
             elif isinstance(val, ast.Subscript) and dotted(val.value) == 'SIZES':
                 self.env[name] = 'FIX'
+            elif isinstance(val, ast.Name) and val.id in self.streams:
+                self.streams.add(name)
             elif isinstance(val, ast.Name) and val.id in self.env:
                 self.env[name] = self.env[val.id]
             elif name in ('stringdb',):
@@ -632,8 +635,11 @@ def run(ctx: Any, prog: Program) -> None:
                     ri, wi = strip_ref(ri, True), strip_ref(wi, False)
                 rs, ws = flat(ri), flat(wi)
                 undecided = '[' in rs or '[' in ws
-                ctx.check('C14.X3', rs == ws and not undecided, dmx, eb, f'{label}: the reader consumes `{rs}` but the writer produces `{ws}`' + (' (undecided gate)' if undecided else ''),
-                          func='Element.export_binary', text=label)
+                if undecided:
+                    # a branch whose test the configuration does not decide: the two token strings are not comparable - no verdict
+                    ctx.shape('C14.X3', False, dmx, eb, f'{label}: a gate is not decided by the configuration (reader `{rs}`, writer `{ws}`)', func='Element.export_binary', text=label)
+                else:
+                    ctx.check('C14.X3', rs == ws, dmx, eb, f'{label}: the reader consumes `{rs}` but the writer produces `{ws}`', func='Element.export_binary', text=label)
     # ---- X10: float components in text ----------------------------------------------------------------------------------------------
     # KV2 text carries floats to 6 decimals (_fmt_float: '.6f' without trailing zeros).  The converters for the float-vector types are siblings:
     # every component of every one of them goes through _fmt_float - a format spec such as ':.6g' keeps 6 *significant* digits instead.
@@ -882,15 +888,21 @@ def run(ctx: Any, prog: Program) -> None:
         else:
             ctx.shape('C14.X6', False, dmx, queue[0], f'guard around the element queue not recognised: {tests}', func=f'Element.{fname}', text=f'{fname}: stubs not queued')
     # ---- X7 ------------------------------------------------------------------------------------------------
-    # the attribute count: the local packed right before the attribute loop, i.e. assigned from a sum()/len() over <elem>.values()
-    cnt = [n for n in walk_no_nested(eb) if isinstance(n, ast.Assign) and isinstance(n.targets[0], ast.Name) and isinstance(n.value, ast.Call) and dotted(n.value.func) in ('sum', 'len')
-           and any(isinstance(x, ast.Call) and isinstance(x.func, ast.Attribute) and x.func.attr == 'values' for x in ast.walk(n.value))]
-    if len(cnt) != 1:
-        raise AnalysisError('export_binary: attr_count computation not found')
-    loop = [n for n in walk_no_nested(eb) if isinstance(n, ast.For) and dotted(n.iter) == 'elem.values' + '' or (isinstance(n, ast.For) and U(n.iter) == 'elem.values()')]
+    loop = [n for n in walk_no_nested(eb) if isinstance(n, ast.For) and isinstance(n.iter, ast.Call) and isinstance(n.iter.func, ast.Attribute) and n.iter.func.attr == 'values' and isinstance(n.iter.func.value, ast.Name)]
     loop = [l for l in loop if any(isinstance(c, ast.Call) and dotted(c.func) == 'pack' for c in ast.walk(l))]
     if len(loop) != 1:
         raise AnalysisError('export_binary: attribute writing loop not found')
+    # the attribute count: the local that is packed in the statements right in front of that loop
+    holder = eb_parent_body = None
+    par_l = dmx.parents.get(loop[0])
+    for fld_ in ('body', 'orelse'):
+        seq_ = getattr(par_l, fld_, None)
+        if isinstance(seq_, list) and loop[0] in seq_:
+            eb_parent_body = seq_[:seq_.index(loop[0])]
+    cnt_names = [a.id for st_ in (eb_parent_body or []) for c in ast.walk(st_) if isinstance(c, ast.Call) and dotted(c.func) == 'pack' for a in c.args[1:] if isinstance(a, ast.Name)]
+    cnt = [n for n in walk_no_nested(eb) if isinstance(n, ast.Assign) and isinstance(n.targets[0], ast.Name) and cnt_names and n.targets[0].id == cnt_names[-1]]
+    if len(cnt) != 1:
+        raise AnalysisError('export_binary: attr_count computation not found')
     skip = [s for s in loop[0].body if isinstance(s, ast.If) and any(isinstance(x, ast.Continue) for x in s.body)]
     if len(skip) != 1:
         raise AnalysisError('export_binary: the name-attribute skip was not found')
